@@ -32,3 +32,16 @@ Proof.
   - exact (source_valid s H).
 Qed.
 Print Assumptions C17_replace_clamp.
+
+(* tree arithmetic: for every tree over Raw* / Original / SourceMapSource / Concat / Replace whose
+   texts, tables and map numbers are below 2^28 (`tiny`, a condition on the input alone), every
+   field of every segment streamed in any of the four modes - generated line and column, source
+   and name index, original line and column - is below 2^30: the u32 results the implementation
+   reports for such trees cannot have wrapped (intermediate i64 offsets are not modelled) *)
+From RS Require Import Stream.Types Stream.Tree Checkers.ChkCodec Checkers.ChkTree.
+From RS Require Proofs.RStreamTree Proofs.BoundsPos Proofs.BoundsAll.
+Theorem C17_tree_fields_in_range : forall st s c f,
+  RStreamTree.rshape s = true -> treeA s = true -> BoundsPos.tiny s = true ->
+  forallb mapping_small (chunk_mappings (fst (fst (stream st s (mkOpts c f))))) = true.
+Proof. exact BoundsAll.tiny_mapping_small. Qed.
+Print Assumptions C17_tree_fields_in_range.
